@@ -544,7 +544,7 @@ PROPS["C09"] = dict(
     module="TmcgProps.C09",
     areas=[("arith", {"quick": 600, "thorough": 10000}, [], "san"),
            ("rabin", {"quick": 1, "thorough": 1}, ["--only-sqrt", "--sqrt-primes", "150"], "san"),
-           ("arith2", {"quick": 200, "thorough": 1000}, [], "san")],
+           ("arith2", {"quick": 200, "thorough": 150}, [], "san")],
     obligations=[("Tmcg.C09.powm_is_power", "full"), ("Tmcg.C09.powm_neg_is_inverse_power", "full"),
                  ("Tmcg.C09.spowm_eq_powm", "full"), ("Tmcg.C09.spowm_refusals", "full"),
                  ("Tmcg.C09.fpowm_eq_powm", "full"), ("Tmcg.C09.fspowm_eq_powm", "full"),
